@@ -6,6 +6,7 @@
 //!                                    (version 0 — Doc indexed, Note not — is the one every site starts with)
 //!   new s= n=<row> e=<0|1> w=<words>  create row n (entity 0 = Doc, 1 = Note) with text `words` (word numbers k1+k2+…, may be
 //!                                    empty; word k is the string `w<k>x<letter>`)
+//!   newx s= n= e=                     create row n without any text field
 //!   upd s= n= w=<words>               replace the text
 //!   clr s= n=                         remove the text (null with one site, the empty string with two: a peer refuses explicit nulls)
 //!   del s= n=
@@ -318,7 +319,7 @@ impl World {
                     Err(e) => format!("err:{}", class(&e)),
                 }
             }
-            "new" => {
+            "new" | "newx" => {
                 let (n, e) = match (get_u(kv, "n"), get_u(kv, "e")) {
                     (Some(n), Some(e)) if e < 2 => (n, e),
                     _ => return "bad-op".into(),
@@ -334,9 +335,16 @@ impl World {
                     None => return "bad-op".into(),
                 };
                 self.note_words(&words);
-                let q = format!("mutate {{ {} {{ room_id:$r txt:$t }} }}", ENT_NAMES[e as usize]);
-                let p = params(&[("r", b64(&self.room)), ("t", text_of(&words))]);
-                stats.inc("op.new");
+                // `newx`: a row created without any text field (with two sites: an empty text, like `clr`)
+                let (q, p) = if kind == "newx" && self.sites.len() == 1 {
+                    (format!("mutate {{ {} {{ room_id:$r }} }}", ENT_NAMES[e as usize]), params(&[("r", b64(&self.room))]))
+                } else {
+                    (
+                        format!("mutate {{ {} {{ room_id:$r txt:$t }} }}", ENT_NAMES[e as usize]),
+                        params(&[("r", b64(&self.room)), ("t", text_of(&words))]),
+                    )
+                };
+                stats.inc(&format!("op.{}", kind));
                 let r = match self.sites[s].inst.svc.mutate_raw(&q, Some(p)).await {
                     Ok(mq) => {
                         let id = mq.mutate_entities[0].node_to_mutate.id;
@@ -651,7 +659,7 @@ pub fn gen_fts(seed: u64, n: usize, len: usize, out: &str) {
         };
         for _ in 0..l {
             let s = g.below(sites);
-            match g.weighted(&[6, 5, 1, 4, if sites == 2 { 4 } else { 0 }, 3, 1, 1, if sites == 1 { 9 } else { 0 }, if sites == 1 { 3 } else { 0 }]) {
+            match g.weighted(&[6, 5, 3, 4, if sites == 2 { 4 } else { 0 }, 3, 1, 1, if sites == 1 { 9 } else { 0 }, if sites == 1 { 3 } else { 0 }, 3]) {
                 0 => {
                     let e = if g.chance(3, 4) { 0 } else { 1 };
                     writeln!(w, "new s={} n={} e={} w={}", s, next_row, e, words(&mut g)).unwrap();
@@ -665,10 +673,30 @@ pub fn gen_fts(seed: u64, n: usize, len: usize, out: &str) {
                     }
                 }
                 2 => {
+                    // all text removed; often followed by a search for what it was, then by new text and a search for it
                     if !rows[s].is_empty() {
                         let n = *g.pick(&rows[s]);
                         writeln!(w, "clr s={} n={}", s, n).unwrap();
+                        if g.chance(1, 2) {
+                            writeln!(w, "qall s={}", s).unwrap();
+                        }
+                        if g.chance(2, 3) {
+                            writeln!(w, "upd s={} n={} w={}", s, n, words(&mut g)).unwrap();
+                            writeln!(w, "qall s={}", s).unwrap();
+                        }
                     }
+                }
+                10 => {
+                    // a row without any text, that gets text later
+                    let e = if g.chance(3, 4) { 0 } else { 1 };
+                    writeln!(w, "newx s={} n={} e={}", s, next_row, e).unwrap();
+                    rows[s].push(next_row);
+                    if g.chance(2, 3) {
+                        let t = g.pick(&vocab).to_string();
+                        writeln!(w, "upd s={} n={} w={}", s, next_row, t).unwrap();
+                        writeln!(w, "q s={} e={} t={}", s, e, t).unwrap();
+                    }
+                    next_row += 1;
                 }
                 3 => {
                     if !rows[s].is_empty() {
